@@ -31,6 +31,15 @@ CLAIMED = {
              "Value.type objects are not compared.",
         technique="Lean 4 proof (invariant by induction over the flattening) + correspondence check over call histories",
         ref="DESIGN.md section 8, C04"),
+    "C09": dict(
+        text="Lean theorems: the model of Verifier.verify (category loop, registered checks in registration order, the code's own count>1 idiom) "
+             "returns ok iff WellFormed S, iff WellFormed S and DbcOk S with the DBC checks, iff WellFormed S and COk S with the C checks; and the "
+             "verdict is invariant under permuting each declaration list (Perm.nodup_iff; for the C set via congruence of the layout under unique "
+             "type names). Tie: schema trees built directly as FcpV2 objects (exhaustive small scope in the thorough tier) x 3 check sets x permuted "
+             "twin, real verdict and first failing rule against the model.",
+        note="Trees with cyclic struct references (hand-built only) are skipped; error rule is read from the message text.",
+        technique="Lean 4 proof (decision logic = decidable specification, permutation invariance) + exhaustive small-scope correspondence",
+        ref="DESIGN.md section 8, C09"),
     "C16": dict(
         text="Lean theorems: every strict byte prefix of a valid encoding makes pyDecode return an error (C16_truncation, from "
              "dec_prefix_none by induction over the type tree), a returned value accounts for bits that were present "
